@@ -29,7 +29,11 @@ class OtherExc(Exception):
     pass
 
 
-EXC = {'allowed': AllowedExc, 'retryable': RetryExc, 'other': OtherExc}
+class BaseExc(BaseException):
+    """Stands for KeyboardInterrupt / SystemExit / GeneratorExit: not derived from Exception."""
+
+
+EXC = {'allowed': AllowedExc, 'retryable': RetryExc, 'other': OtherExc, 'base': BaseExc}
 NROWS = 20
 
 
@@ -41,6 +45,8 @@ def kind_of(e):
         return 'retryable'
     if isinstance(e, OtherExc):
         return 'other'
+    if isinstance(e, BaseExc):
+        return 'base'
     if isinstance(e, core.CommitException):
         return 'commitexc'
     if isinstance(e, core.RollbackException):
@@ -517,7 +523,7 @@ TRACE_CFG = '''CONSTANTS
  MaxForks = 2
  Forms = {"cm", "dec", "gen"}
  Kinds = {"opt", "imm", "ddl"}
- ExcKinds = {"allowed", "retryable", "other"}
+ ExcKinds = {"allowed", "retryable", "other", "base"}
  Provider = "%%s"
  AllowCrash = TRUE
  ForkInSession = TRUE
